@@ -213,4 +213,110 @@ Section BlockRun.
         with ((e :: tr') ++ (if exc o bi bs then tailD o bi bs true rest else sfxPost o bi bs rest)).
       eapply AccR_app; [exact Hrun|]. apply AccR_of_Acc. eapply Acc_mono; [|exact After]. unfold eps_fuel. lia.
   Qed.
+
+  (* out of BPre, both initial runs over *)
+  Lemma pre_out bt im vp vc more :
+    closed_as (g_pre gs) (t_pre bt) vp -> closed_as (g_cont gs) (t_cont bt) vc ->
+    tget bt GPost = g0 -> tget bt GDeferred = g0 ->
+    more = (if vp && vc then sfxSeqs o bi bs rest else tailD o bi bs true rest) ->
+    K (if vp && vc then failSeqs o bi bs else true)
+      (img_of (if vp && vc then sfxSeqs o bi bs [] else tailD o bi bs true []) im) ->
+    Acc sh 6 (S_ BPre bt TNone false (b_seqs (b_init bs)) im) more.
+  Proof.
+    intros Hp Hc H0 H1 -> HK.
+    pose proof (E_pre sh bi bs t th Hb bt TNone false (b_seqs (b_init bs)) im vp vc Hp Hc) as HE.
+    destruct (vp && vc) eqn:V.
+    - eapply Acc_skip'; [apply Blocked_sfxSeqs; auto|exact HE|]. apply pos_seqs; auto.
+      apply andb_true_iff in V as [_ ->]. unfold ThrOK. destruct (g_cont gs); cbn [present closed_as] in *; auto.
+    - eapply Acc_skip'; [apply Blocked_tailD; auto|exact HE|]. eapply Acc_mono; [|apply pos_deferred; auto].
+      + lia.
+      + now left.
+  Qed.
+
+  (* pre and the initial continuous run, then the sequences ... or deferred ... *)
+  Lemma pos_pre bt im :
+    tget bt GPre = g0 -> tget bt GCont = g0 -> tget bt GPost = g0 -> tget bt GDeferred = g0 ->
+    K (failPre o bi bs) (img_of (sfxPre o bi bs []) im) ->
+    Acc sh 6 (S_ BPre bt TNone false (b_seqs (b_init bs)) im) (sfxPre o bi bs rest).
+  Proof.
+    intros Hp0 Hc0 H0 H1 HK. unfold sfxPre, failPre in *. rewrite !img_of_app in HK.
+    set (more := if snd (Rg o bi bs GPre) && snd (Rg o bi bs GCont) then sfxSeqs o bi bs rest else tailD o bi bs true rest) in *.
+    (* the continuous group, with pre over *)
+    assert (StepB : forall bt1 im1, closed_as (g_pre gs) (t_pre bt1) (snd (Rg o bi bs GPre)) ->
+              tget bt1 GCont = g0 -> tget bt1 GPost = g0 -> tget bt1 GDeferred = g0 ->
+              K (if snd (Rg o bi bs GPre) && snd (Rg o bi bs GCont) then failSeqs o bi bs else true)
+                (img_of (if snd (Rg o bi bs GPre) && snd (Rg o bi bs GCont) then sfxSeqs o bi bs [] else tailD o bi bs true [])
+                        (img_of (fst (Rg o bi bs GCont)) im1)) ->
+              Acc sh 6 (S_ BPre bt1 TNone false (b_seqs (b_init bs)) im1) (fst (Rg o bi bs GCont) ++ more)).
+    { intros bt1 im1 Hp1 Hc1 H01 H11 HK1.
+      destruct (grp_get gs GCont) as [rs|] eqn:Eg.
+      - assert (ER : Rg o bi bs GCont = grp_run o sc GCont rs) by (unfold Rg, opt_grp_run; now rewrite Eg).
+        unfold more. rewrite ER in *.
+        apply bgrp_Acc; auto. apply AccR_of_Acc. apply Acc_mono with (f := 6); [unfold eps_fuel; lia|].
+        apply (pre_out _ _ (snd (Rg o bi bs GPre)) (snd (grp_run o sc GCont rs))).
+        + change (t_pre (tset bt1 GCont (GIdle 1 (Some (snd (grp_run o sc GCont rs))))))
+            with (tget (tset bt1 GCont (GIdle 1 (Some (snd (grp_run o sc GCont rs))))) GPre).
+          rewrite tget_tset_other by discriminate. exact Hp1.
+        + cbn [grp_get] in Eg. rewrite Eg. cbn [closed_as]. apply (tget_tset bt1 GCont).
+        + rewrite tget_tset_other by discriminate. assumption.
+        + rewrite tget_tset_other by discriminate. assumption.
+        + reflexivity.
+        + exact HK1.
+      - assert (ER : Rg o bi bs GCont = ([], true)) by (unfold Rg, opt_grp_run; now rewrite Eg).
+        unfold more. rewrite ER in *. cbn [fst snd app img_of] in *.
+        apply (pre_out _ _ (snd (Rg o bi bs GPre)) true); auto.
+        cbn [grp_get] in Eg. rewrite Eg. reflexivity. }
+    destruct (grp_get gs GPre) as [rs|] eqn:Eg.
+    - assert (ER : Rg o bi bs GPre = grp_run o sc GPre rs) by (unfold Rg, opt_grp_run; now rewrite Eg).
+      rewrite ER in HK. rewrite ER at 1.
+      apply bgrp_Acc; auto. apply AccR_of_Acc. apply Acc_mono with (f := 6); [unfold eps_fuel; lia|]. apply StepB.
+      + rewrite ER. cbn [grp_get] in Eg. rewrite Eg. cbn [closed_as]. apply (tget_tset bt GPre).
+      + rewrite tget_tset_other by discriminate. assumption.
+      + rewrite tget_tset_other by discriminate. assumption.
+      + rewrite tget_tset_other by discriminate. assumption.
+      + rewrite ER. exact HK.
+    - assert (ER : Rg o bi bs GPre = ([], true)) by (unfold Rg, opt_grp_run; now rewrite Eg).
+      rewrite ER at 1. cbn [fst app]. apply StepB; auto.
+      + rewrite ER. cbn [grp_get] in Eg. rewrite Eg. reflexivity.
+      + assert (Ei : img_of (fst (Rg o bi bs GPre)) im = im) by (rewrite ER; reflexivity).
+        rewrite Ei in HK. exact HK.
+  Qed.
+
+  (* bypass group, then Completed at once ... or pre ... *)
+  Lemma pos_byp im :
+    K (failByp o bi bs) (img_of (sfxByp o bi bs []) im) ->
+    Acc sh 7 (S_ BBypass gtab0 TNone false (b_seqs (b_init bs)) im) (sfxByp o bi bs rest).
+  Proof.
+    intro HK. unfold sfxByp, failByp, bypassed in *. rewrite img_of_app in HK.
+    destruct (grp_get gs GBypass) as [rs|] eqn:Eg.
+    - assert (ER : Rg o bi bs GBypass = grp_run o sc GBypass rs) by (unfold Rg, opt_grp_run; now rewrite Eg).
+      assert (Eg' : g_bypass gs = Some rs) by exact Eg.
+      rewrite ER, Eg' in *. cbn [present andb] in *.
+      apply bgrp_Acc; auto. apply AccR_of_Acc. apply Acc_mono with (f := 7); [unfold eps_fuel; lia|].
+      set (bt1 := tset gtab0 GBypass (GIdle 1 (Some (snd (grp_run o sc GBypass rs))))).
+      set (im1 := img_of (fst (grp_run o sc GBypass rs)) im) in *.
+      pose proof (E_bypass_done sh bi bs t th Hb bt1 TNone false (b_seqs (b_init bs)) im1 rs _ Eg' eq_refl) as HE.
+      destruct (snd (grp_run o sc GBypass rs)).
+      + (* bypassed: the block is Completed *)
+        eapply Acc_skip'; [apply Blocked_cons, (F_completed sh bi bs); auto|exact HE|].
+        eapply Acc_cons; [apply (H_completed sh bi bs); auto|]. apply AccR_of_Acc.
+        eapply Acc_mono; [|apply (L_end bt1 TNone false)]; [unfold eps_fuel; lia|now left|apply ist_iset|exact HK].
+      + eapply Acc_skip'; [apply Blocked_sfxPre; auto|exact HE|]. now apply pos_pre.
+    - assert (ER : Rg o bi bs GBypass = ([], true)) by (unfold Rg, opt_grp_run; now rewrite Eg).
+      assert (Eg' : g_bypass gs = None) by exact Eg.
+      rewrite ER, Eg' in *. cbn [present andb fst app img_of] in *.
+      eapply Acc_skip'; [apply Blocked_sfxPre; auto|apply (E_bypass_absent sh bi bs); auto|]. now apply pos_pre.
+  Qed.
+
+  (* the whole block, from the state enter_block leaves *)
+  Theorem block_ok im f :
+    K (snd (block_run o bi bs)) (img_of (fst (block_run o bi bs)) im) ->
+    Acc sh f (S_ BEnter gtab0 TNone false (b_seqs (b_init bs)) im) (fst (block_run o bi bs) ++ rest).
+  Proof.
+    destruct (block_run_sfx o bi bs) as [E1 E2]. rewrite E1, E2. intro HK.
+    cbn [app]. rewrite <- sfxByp_app. cbn [img_of Wb W] in HK.
+    eapply Acc_cons; [apply (H_running sh bi bs); auto|]. apply AccR_of_Acc.
+    eapply Acc_skip'; [now apply Blocked_sfxByp|apply (E_enter sh bi bs); auto; apply ist_iset|].
+    eapply Acc_mono; [|apply pos_byp; exact HK]. lia.
+  Qed.
 End BlockRun.
